@@ -16,6 +16,8 @@ mod p_compare;
 mod p_generate;
 mod p_hashes;
 mod p_text;
+#[cfg(feature = "unchecked")]
+mod p_unchecked;
 mod types;
 mod util;
 
@@ -47,7 +49,12 @@ fn dispatch(pid: &str, ctx: &mut Ctx) -> Option<R> {
         "C18" => p_generate::c18(ctx),
         "C19" => p_hashes::c19(ctx),
         "C20" => p_compare::c20(ctx),
-        // C14: feature sets cannot be switched at run time; unknown ids: nothing to explore
+        // C14: feature sets cannot be switched at run time; what can be explored is the
+        // agreement of the `*_unchecked` entry points with their checked twins, which only
+        // exist when the library is built with its `unchecked` feature
+        #[cfg(feature = "unchecked")]
+        "C14" => p_unchecked::c14(ctx),
+        // unknown ids: nothing to explore
         _ => return None,
     })
 }
@@ -59,7 +66,11 @@ fn run(pid: &str, seed: u64, budget: f64) -> bool {
     let res = util::guard(|| dispatch(pid, &mut ctx));
     match res {
         Ok(None) => {
-            println!("explored 0 inputs, 0 distinct checks, no disagreement");
+            if pid == "C14" {
+                println!("explored 0 inputs, 0 distinct checks, no disagreement (library built without the unchecked feature)");
+            } else {
+                println!("explored 0 inputs, 0 distinct checks, no disagreement");
+            }
             false
         }
         Ok(Some(Ok(()))) => {
